@@ -1,7 +1,7 @@
 /-
 C09 — evaluations on separate VMs are safe to run concurrently.
 
-Three executable models, core Lean only.
+Four executable models, core Lean only.
 
 1. A trace model of threads acquiring/releasing mutexes (exclusive or shared mode, as Go's
    `sync.Mutex` / `sync.RWMutex`) and accessing shared locations.  An access event carries
@@ -19,6 +19,12 @@ Three executable models, core Lean only.
 3. A small VM model for `isolated_results`: each evaluation owns its globals and its wrapped
    copy of the compiled code; the compiled code, the converter cache and the importer cache
    are shared.  One step = one statement.
+
+4. State handed out to evaluations by process-wide allocators (§4): the machine behind `vm.Run`
+   and the objects that come out of registries (`GoType.GetAttr` …), as resources that agents
+   acquire, write through, observe and release under an allocation policy (`fresh` = the code as
+   it is; `pooled`, `cached` = contrast variants); reviewed twins of the regenerated tables
+   `machineSources`, `registryReturns`, `registryTypes`.
 -/
 namespace Risor.C09
 
@@ -357,6 +363,252 @@ def SharedOK (sh : Shared) : Prop := CacheOK sh.convCache mkConv ∧ CacheOK sh.
 def aloneResult (code : List Stmt) (n : Nat) : List Nat :=
   (runAlone { code := code, convCache := [], modCache := [] }
     (load { code := code, convCache := [], modCache := [] } n) code.length).2.globals
+
+/-! ## 4. State handed out to evaluations by process-wide allocators
+
+Two things an evaluation receives from state that OUTLIVES it:
+
+* its machine: `vm.Run` (behind `risor.Eval` / `EvalCode`) obtains a `*VirtualMachine`.  The
+  code as it is allocates one per call (`New` → `createVM` → `&VirtualMachine{}`).  A context
+  watcher goroutine (`start`: `<-ctx.Done(); atomic.StoreInt32(&vm.halt, 1)`) keeps a
+  reference to the machine after the evaluation has returned;
+* objects from process-wide registries: `GoType.GetAttr("attributes")` and friends hand a
+  script an object that comes out of `goTypeRegistry`.  The script keeps it and may edit it.
+
+Both are instances of one machine: agents (`t`) obtain a resource (`acq`), write through the
+reference they hold (`wr`: a script edits the map; the watcher of a finished evaluation stores
+`halt`), observe it (`rd`: the eval loop loads `halt` before every instruction; a script prints
+the map) and end (`rel`: the resource goes back to the allocator — the agent KEEPS its
+reference, that is the point).  The allocator's policy is the only difference between the code
+as it is (`fresh`) and the two contrast variants (`pooled`: a recycled machine, reset on reuse;
+`cached`: one object for everybody, built on first use). -/
+
+inductive Policy where
+  | fresh     -- a new resource per request (the code as it is: `New(...)`, `NewMap(t.attrMap())`)
+  | pooled    -- released resources are reset and handed out again (a `sync.Pool` of machines)
+  | cached    -- the first resource ever built is handed to every request (a cache field in the registry)
+  deriving DecidableEq, Repr
+
+inductive REv where
+  | acq (t : Nat)
+  | wr (t : Nat) (v : Nat)
+  | rd (t : Nat)
+  | rel (t : Nat)
+  deriving DecidableEq, Repr
+
+def REv.agent : REv → Nat
+  | .acq t => t
+  | .wr t _ => t
+  | .rd t => t
+  | .rel t => t
+
+structure RState where
+  cells : List Nat             -- resource `i` currently holds `cells[i]`
+  free : List Nat              -- released resources (used by `pooled` only)
+  held : Nat → Option Nat      -- the reference agent `t` holds (kept after `rel`)
+  log : Nat → List Nat         -- what agent `t` has observed so far
+
+def RState.empty : RState := { cells := [], free := [], held := fun _ => none, log := fun _ => [] }
+
+/-- the allocator: which resource a request gets, and the state afterwards -/
+def alloc (p : Policy) (s : RState) : Nat × RState :=
+  match p with
+  | .fresh => (s.cells.length, { s with cells := s.cells ++ [0] })
+  | .pooled =>
+    match s.free with
+    | r :: fr => (r, { s with cells := s.cells.set r 0, free := fr })   -- `reset()`
+    | [] => (s.cells.length, { s with cells := s.cells ++ [0] })
+  | .cached =>
+    if s.cells.isEmpty then (0, { s with cells := [0] }) else (0, s)
+
+def rstep (p : Policy) (s : RState) : REv → RState
+  | .acq t =>
+    let (r, s') := alloc p s
+    { s' with held := fun k => if k = t then some r else s'.held k }
+  | .wr t v =>
+    match s.held t with
+    | some r => { s with cells := s.cells.set r v }
+    | none => s
+  | .rd t =>
+    match s.held t with
+    | some r => { s with log := fun k => if k = t then s.log t ++ [s.cells.getD r 0] else s.log k }
+    | none => s
+  | .rel t =>
+    match p, s.held t with
+    | .pooled, some r => { s with free := r :: s.free }
+    | _, _ => s
+
+def rrun (p : Policy) (s : RState) : List REv → RState
+  | [] => s
+  | e :: es => rrun p (rstep p s e) es
+
+/-- what agent `t` observes in a schedule, from the empty state -/
+def observed (p : Policy) (evs : List REv) (t : Nat) : List Nat := (rrun p RState.empty evs).log t
+
+/-- … and what it observes when only its own events happen (the stand-alone run) -/
+def observedAlone (p : Policy) (evs : List REv) (t : Nat) : List Nat :=
+  observed p (evs.filter fun e => e.agent == t) t
+
+/-! ### 4a. machines: the events of evaluations through `vm.Run` -/
+
+inductive MEv where
+  | start (e : Nat)     -- `vm.Run`: obtain a machine, `start()` (halt := 0, spawn the watcher of e's context)
+  | instr (e : Nat)     -- one trip round the eval loop: load `halt`, then dispatch
+  | finish (e : Nat)    -- the evaluation returns; the machine is dropped / put back
+  | cancel (e : Nat)    -- e's OWN context is cancelled (at any time: during, right after, long after its run)
+  deriving DecidableEq, Repr
+
+def MEv.toR : MEv → REv
+  | .start e => .acq e
+  | .instr e => .rd e
+  | .finish e => .rel e
+  | .cancel e => .wr e 1
+
+def MEv.eval : MEv → Nat
+  | .start e => e
+  | .instr e => e
+  | .finish e => e
+  | .cancel e => e
+
+/-- outcome of evaluation `e`: how many instructions it dispatched before it saw `halt = 1`
+    (`none`: it never saw it) -/
+def haltedAt (log : List Nat) : Option Nat := log.idxOf? 1
+
+structure MOutcome where
+  loads : Nat               -- trips round the eval loop
+  halted : Option Nat       -- the trip at which `halt` was seen set
+  deriving DecidableEq, Repr
+
+def machineOutcome (p : Policy) (evs : List MEv) (e : Nat) : MOutcome :=
+  let log := observed p (evs.map MEv.toR) e
+  { loads := log.length, halted := haltedAt log }
+
+def machineOutcomeAlone (p : Policy) (evs : List MEv) (e : Nat) : MOutcome :=
+  machineOutcome p (evs.filter fun ev => ev.eval == e) e
+
+/-! ### 4b. the table of what registry-resident objects hand out
+
+`Generated.C09.registryReturns` lists, for every method (and every builtin closure built in a
+method) of the Risor object types that live in process-wide registries and that returns an
+`object.Object`, where each returned object comes from: `fresh` (constructed in the method body
+or by a constructor all of whose returns are fresh), `field` / `elem` (read from the resident
+object), `global`, `self`, `param`.  `registryTypes` lists those types with the receiver fields
+that any method of theirs assigns. -/
+
+/-- (method, source kind, detail, Go type of the returned expression) -/
+abbrev RegRow := String × String × String × String
+
+/-- Go types whose values a script cannot change: no method assigns a receiver field
+    (`registryTypes`), `SetAttr` is `base`'s (always an error), and the only lazily written
+    field (`GoType.converter`) is written under `goTypeMutex` and is not visible to scripts -/
+def immutableObjTypes : List String :=
+  ["*object.String", "*object.Int", "*object.Bool", "*object.NilType", "*object.Byte",
+   "*object.GoType", "*object.GoField", "*object.GoMethod"]
+
+def regRowOK (r : RegRow) : Bool :=
+  r.2.1 == "fresh" || immutableObjTypes.contains r.2.2.2
+
+/-- internal, lock-protected caches that are not reachable from scripts -/
+def internalCacheFields : List (String × String) := [("object.GoType", "converter")]
+
+def regTypeOK (t : String × List String) : Bool :=
+  t.2.all fun f => internalCacheFields.contains (t.1, f)
+
+/-- reviewed twin of `Generated.C09.registryTypes`: the Risor object types reachable from package-level
+    state, with the receiver fields their methods assign.  (A `*object.Map`, `*object.List`, … here
+    would mean a mutable container is kept in a registry.) -/
+def registryTypeRows : List (String × List String) := [
+  ("object.Bool", []),
+  ("object.Byte", []),
+  ("object.GoField", []),
+  ("object.GoMethod", []),
+  ("object.GoType", ["converter"]),
+  ("object.Int", []),
+  ("object.NilType", []),
+  ("object.String", [])
+]
+
+/-- reviewed twin of `Generated.C09.registryReturns` (read with go_type.go / go_field.go /
+    go_method.go next to it): `GoType.GetAttr("attributes")` builds a NEW map per request
+    (`NewMap(t.attrMap())`), `GoMethod.GetAttr("error_indices")` a new list, `in_type` / `out_type`
+    new builtins that hand out `*GoType` elements; everything read from a field is a `*String`,
+    `*Int` or `*GoType`. -/
+def registryRows : List RegRow := [
+  ("object.Bool.Equals", "global", "object.False", "*object.Bool"),
+  ("object.Bool.Equals", "global", "object.True", "*object.Bool"),
+  ("object.Byte.Equals", "global", "object.False", "*object.Bool"),
+  ("object.Byte.Equals", "global", "object.True", "*object.Bool"),
+  ("object.Byte.RunOperation", "global", "object.byteCache[…]", "*object.Byte"),
+  ("object.Byte.RunOperation", "global", "object.intCache[…]", "*object.Int"),
+  ("object.Byte.runOperationByte", "global", "object.byteCache[…]", "*object.Byte"),
+  ("object.Byte.runOperationInt", "global", "object.intCache[…]", "*object.Int"),
+  ("object.GoField.Equals", "global", "object.False", "*object.Bool"),
+  ("object.GoField.Equals", "global", "object.True", "*object.Bool"),
+  ("object.GoField.GetAttr", "field", "fieldType", "*object.GoType"),
+  ("object.GoField.GetAttr", "field", "name", "*object.String"),
+  ("object.GoField.GetAttr", "field", "tag", "*object.String"),
+  ("object.GoField.RunOperation", "fresh", "", "*object.Error"),
+  ("object.GoMethod.Equals", "global", "object.False", "*object.Bool"),
+  ("object.GoMethod.Equals", "global", "object.True", "*object.Bool"),
+  ("object.GoMethod.GetAttr", "field", "name", "*object.String"),
+  ("object.GoMethod.GetAttr", "field", "numIn", "*object.Int"),
+  ("object.GoMethod.GetAttr", "field", "numOut", "*object.Int"),
+  ("object.GoMethod.GetAttr", "fresh", "", "*object.Builtin"),
+  ("object.GoMethod.GetAttr", "fresh", "", "*object.List"),
+  ("object.GoMethod.GetAttr$func", "elem", "inputTypes", "*object.GoType"),
+  ("object.GoMethod.GetAttr$func", "elem", "outputTypes", "*object.GoType"),
+  ("object.GoMethod.GetAttr$func", "fresh", "", "*object.Error"),
+  ("object.GoMethod.RunOperation", "fresh", "", "*object.Error"),
+  ("object.GoType.Equals", "global", "object.False", "*object.Bool"),
+  ("object.GoType.Equals", "global", "object.True", "*object.Bool"),
+  ("object.GoType.GetAttr", "field", "name", "*object.String"),
+  ("object.GoType.GetAttr", "field", "packagePath", "*object.String"),
+  ("object.GoType.GetAttr", "fresh", "", "*object.Map"),
+  ("object.GoType.GetAttr", "global", "object.False", "*object.Bool"),
+  ("object.GoType.GetAttr", "global", "object.True", "*object.Bool"),
+  ("object.GoType.RunOperation", "fresh", "", "*object.Error"),
+  ("object.Int.Equals", "global", "object.False", "*object.Bool"),
+  ("object.Int.Equals", "global", "object.True", "*object.Bool"),
+  ("object.Int.RunOperation", "global", "object.intCache[…]", "*object.Int"),
+  ("object.Int.runOperationFloat", "global", "object.intCache[…]", "*object.Int"),
+  ("object.Int.runOperationInt", "global", "object.intCache[…]", "*object.Int"),
+  ("object.NilType.Equals", "global", "object.False", "*object.Bool"),
+  ("object.NilType.Equals", "global", "object.True", "*object.Bool"),
+  ("object.String.Count", "global", "object.intCache[…]", "*object.Int"),
+  ("object.String.Equals", "global", "object.False", "*object.Bool"),
+  ("object.String.Equals", "global", "object.True", "*object.Bool"),
+  ("object.String.GetAttr$func", "global", "object.False", "*object.Bool"),
+  ("object.String.GetAttr$func", "global", "object.True", "*object.Bool"),
+  ("object.String.GetAttr$func", "global", "object.intCache[…]", "*object.Int"),
+  ("object.String.HasPrefix", "global", "object.False", "*object.Bool"),
+  ("object.String.HasPrefix", "global", "object.True", "*object.Bool"),
+  ("object.String.HasSuffix", "global", "object.False", "*object.Bool"),
+  ("object.String.HasSuffix", "global", "object.True", "*object.Bool"),
+  ("object.String.Index", "global", "object.intCache[…]", "*object.Int"),
+  ("object.String.LastIndex", "global", "object.intCache[…]", "*object.Int")
+]
+
+/-- reviewed twin of `Generated.C09.machineSources`: `vm.Run` → `New` → `createVM` → `&VirtualMachine{}` -/
+def machineSourceRows : List (String × String) := [
+  ("vm.New", "call:vm.createVM"),
+  ("vm.NewEmpty", "call:vm.createVM"),
+  ("vm.Run", "call:vm.New"),
+  ("vm.VirtualMachine.Clone", "new"),
+  ("vm.VirtualMachine.cloneCallAsync", "call:vm.VirtualMachine.Clone"),
+  ("vm.VirtualMachine.cloneCallSync", "call:vm.VirtualMachine.Clone"),
+  ("vm.createVM", "new"),
+  ("vm.newVM", "call:vm.New"),
+  ("vm.run", "call:vm.newVM")
+]
+
+/-- a function of package vm hands out only machines that were allocated for this request:
+    `new`, or the result of a function for which the same holds (fuel bounds the call depth) -/
+def machineFresh (tbl : List (String × String)) : Nat → String → Bool
+  | 0, _ => false
+  | fuel + 1, fn =>
+    let srcs := (tbl.filter fun r => r.1 == fn).map (·.2)
+    !srcs.isEmpty && srcs.all fun src =>
+      src == "new" || tbl.any fun r => src == "call:" ++ r.1 && machineFresh tbl fuel r.1
 
 /-- reviewed list of package-level variables that are mutable in effect (name, kind): assigned
     outside initialisation, or of map/slice/pointer/chan type, or a non-`error` interface value, or a
